@@ -40,6 +40,18 @@ CHECKS = {
  "C18": dict(cat="model_checking", ref="7 C18", tech="TLA+ framing oracle (AuditWire!Frame) and Netlink model (atomic counter, N senders) checked by TLC; TLC trace validation of a real NetlinkClient against the kernel's verbatim echo on NETLINK_ROUTE, a user-space NETLINK_USERSOCK sender (unicast and multicast), the audit parser on all lengths; concurrent Send under -race",
              text="TLC proves on the model that N senders sharing the atomic counter get distinct, increasing, contiguous numbers (and rejects the load/store variant). On the real code TLC compares, for ~1000 (type, flags, pid, payload length 0..8970) requests, the kernel's echo of what was on the wire with Frame(type, flags, returned seq, port, payload); checks 8x25 concurrent sends per round for distinct numbers and intact frames; requires an error and no parser call for every datagram of length 1..64 from a non-kernel sender, unicast and multicast; and checks the parser on every length 0..64.",
              note="Trusted: the kernel's netlink_ack echo semantics, /proc/net/netlink for the port id, TLC, the race detector. No schedule control over Send (one atomic instruction). If netlink sockets cannot be opened the socket sub-checks are skipped and recorded in the evidence."),
+ "C06": dict(cat="exploration", ref="7 C06", tech="struct audit_rule_data written as a TLA+ definition (AuditRule!Encode over UAPI.tla); TLC enumerates the case analysis (RuleCases.tla) and judges the bytes the real Build produced for every instantiated case and random rule",
+             text="For every (field x operator x value class x admissible list) combination, every list x action x syscall-set shape x key count, all 25 inter-field comparisons in both orders, all 16 permission subsets x path/dir watches, 0..65 fields and boundary syscall numbers - all enumerated by TLC - plus thousands of seeded random multi-filter rules, the harness renders auditctl text, runs flags.Parse and rule.Build, and TLC checks bytes = Encode(abstract rule) byte for byte (header words, mask, field/value/operator arrays, string buffer, padding), with every code taken from UAPI.tla rather than the library's tables.",
+             note="Exploration, not proof: the case analysis is complete but values are sampled. Trusted: UAPI.tla's transcription of the kernel headers and x86 syscall numbers, the harness's rendering of abstract rules as text, little-endian amd64 host. Rules Build rejects are not judged."),
+ "C07": dict(cat="exploration", ref="7 C07", tech="TLC-enumerated cases and random rules taken through Build -> ToCommandLine -> flags.Parse -> Build -> ToCommandLine on the real code; TLC judges each step and byte/text equality (RuleMonitor!JudgeRound); the first encoding is pinned to the abstract rule by C06's Encode",
+             text="Every accepted rule of C06's domain that stays inside C07's quantifier (no whitespace/quote/backslash in values, path= a non-directory and dir= a directory created by the harness, amd64, resolveIds=false) is decoded to text, re-parsed, re-built and decoded again; TLC requires every step to succeed, the re-encoded bytes to equal the original bytes and the second text to equal the first. Generators emphasise != on arch, uid/gid >= 2^31 and unset, numeric syscalls without names, multi-key rules, every filetype, msgtype above 65535, watch-shaped syscall rules and arch filters that are not first.",
+             note="Exploration with a complete case analysis and sampled values. Meaning preservation rests on C06 (bytes = Encode(asked rule)) plus byte identity here. Trusted: as C06."),
+ "C13": dict(cat="exploration", ref="7 C13", tech="TLC enumerates every header word x boundary value and every flag order; the real decoder runs in a child process with an address-space limit; TLC judges totality, allocation bound and AuditRule!StructurallyValid on every successful decode",
+             text="Each of the 260 header words of five valid base rules is replaced by each of 11 boundary values (14 300 decodes), plus truncations, wrap-around string lengths and random buffers; Build gets syscall numbers across and beyond the mask (incl. 2048..2079, 2^31, 2^32, 20-digit), 0..1000 filters and junk strings; flags.Parse gets hostile and random lines. A panic, a hang (20 s), a child killed by the memory limit, or allocation beyond 1 MiB + 64 x input is flagged, and whenever ToCommandLine succeeds the bytes must satisfy StructurallyValid (count <= 64, buflen inside the slice, string ends inside the buffer without wrap).",
+             note="A panic is observed, not proved absent. Typed-nil Rule pointers are outside the quantifier ('all Rule structs'). Trusted: the child-process crash attribution, runtime.MemStats."),
+ "C14": dict(cat="exploration", ref="7 C14", tech="token accounting written in TLA+ (RuleFlags.tla); TLC enumerates every order of up to 4 flags (incl. stray positional words) and judges the rule the real flags.Parse returned against the argument list",
+             text="For all 8 411 flag orders the harness fills in sampled values (with spaces, operator characters, '=' signs, leading and trailing junk), shell-quotes the arguments itself, and logs arguments and result; TLC requires of every accepted line that no positional word or dangling flag exists, that delete/watch/syscall flags are not mixed and -a/-A is given exactly once for syscall rules, and that every -F/-C argument equals field+operator+value of its filter with the longest operator at the first operator position, and -S/-k/-p/-w/-a/-A are reflected in full.",
+             note="Single-valued flags are never repeated (the statement does not say which occurrence wins); no whitespace is placed around operators or commas. Rejected lines are not judged."),
 }
 
 NOT_YET = {
